@@ -37,51 +37,8 @@ def check(col: Collector, tier: str):
     m = visitor_methods(repo)
     tr = repo.mod("common.ast_to_cpp_translator")
     # ---------------------------------------------------------------- R1 frames
-    col.floor("C08.R1", 5)
-    sites = []
-    for f in repo.all_functions():
-        for c in walk_no_nested(f.node):
-            if isinstance(c, ast.Call) and call_name(c) == "define_name":
-                sites.append((f, c))
-    if not sites:
-        raise AnalysisError("no define_name call found: lambda parameters are never bound")
-    for f, c in sites:
-        pm = parent_map(f.node)
-        withs = [w for w in enclosing(f.node, c, (ast.With,), pm)
-                 if any(isinstance(i.context_expr, ast.Call) and call_name(i.context_expr) == "stack_frame" and src(i.context_expr.args[0]) == src(c.func.value)
-                        for i in w.items)]
-        col.add("C08.R1", f.short, "binding-inside-its-own-frame", len(withs) == 1,
-                "define_name must be called lexically inside `with stack_frame(<the same stack>)`: a binding made in the enclosing frame outlives the "
-                "lambda and captures later uses of an outer parameter of the same name", f"{f.module.rel}:{c.lineno}")
-        if withs:
-            w = withs[0]
-            body_tr = [x for x in ast.walk(w) if isinstance(x, ast.Call) and call_name(x) in ("get_rep", "get_rep_value", "visit") and ".func.body" in src(x)]
-            col.add("C08.R1", f.short, "body-translated-inside-the-same-frame", len(body_tr) == 1,
-                    "the lambda body must be translated while its frame is live (inside the same with block)", f"{f.module.rel}:{w.lineno}")
-        # positional pairing and key-only use of the name
-        loops = enclosing(f.node, c, (ast.For,), pm)
-        ok = False
-        if loops:
-            lp = loops[0]
-            it = lp.iter
-            ok = isinstance(it, ast.Call) and call_name(it) == "zip" and [src(a) for a in it.args] == ["call_node.args", "call_node.func.args.args"] \
-                and isinstance(lp.target, ast.Tuple) and len(lp.target.elts) == 2 \
-                and [src(a) for a in c.args] == [f"{src(lp.target.elts[1])}.arg", src(lp.target.elts[0])]
-        col.add("C08.R1", f.short, "parameter-k-bound-to-argument-k", ok,
-                "bindings must pair call arguments and lambda parameters by position: define_name(<param>.arg, <argument>) over zip(call.args, lambda.args.args)",
-                f"{f.module.rel}:{c.lineno}")
-        uses = [n for n in ast.walk(f.node) if isinstance(n, ast.Attribute) and n.attr == "arg" and isinstance(n.value, ast.Name)]
-        col.add("C08.R1", f.short, "parameter-name-is-only-a-key", len(uses) == 1,
-                f"the parameter's name text must not flow anywhere but the binding key ({len(uses)} uses of .arg)", f.loc)
-    other = [f"{f.short}:{call_name(c)}" for f in repo.all_functions() for c in walk_no_nested(f.node)
-             if isinstance(c, ast.Call) and call_name(c) in ("push_stack_frame", "pop_stack_frame")]
-    col.add("C08.R1", "func_adl_xAOD", "no-manual-frame-push-or-pop", not other, f"manual frame operations: {other}")
-    vcl = m.get("visit_Call_Lambda")
-    if vcl is None:
-        raise AnalysisError("visit_Call_Lambda not found")
-    col.add("C08.R1", vcl.short, "single-binding-site", [f.short for f, _ in sites] == [vcl.short],
-            f"define_name is called from {[f.short for f, _ in sites]}; only visit_Call_Lambda may bind names")
-
+    from sa.props._tr import check_lambda_frames
+    check_lambda_frames(col, "C08.R1", repo, m)
     # the receiver's (Python) name is recorded on the code value: one value per call site, or a rename at one site changes another
     from sa.props._tr import check_code_value_per_call_site
     check_code_value_per_call_site(col, "C08.R1", repo)
